@@ -70,6 +70,7 @@ type Recorder struct {
 	Faults     map[int]Fault
 	persistent bool // a persistent fault has fired
 	injected   int  // number of calls failed by injection
+	cleared    bool // ClearFaults was called
 	NoFaultSrc map[string]bool
 
 	// StopAt >= 0: freeze the world right before the call with this ordinal.
@@ -206,12 +207,22 @@ func (r *Recorder) setData(seq int, fn func(e *Ev)) {
 // InjectedCount returns how many calls have been failed by injection so far.
 func (r *Recorder) InjectedCount() int { r.mu.Lock(); defer r.mu.Unlock(); return r.injected }
 
+// ResetInjectedIfCleared forgets earlier injections once the faults have been cleared and the
+// process has been restarted cleanly (consequences of a fault last until then).
+func (r *Recorder) ResetInjectedIfCleared() {
+	r.mu.Lock()
+	if r.cleared {
+		r.injected = 0
+	}
+	r.mu.Unlock()
+}
+
 // ClearFaults removes all faults (used before the clean reopen).
 func (r *Recorder) ClearFaults() {
 	r.mu.Lock()
 	r.Faults = map[int]Fault{}
 	r.persistent = false
-	r.injected = 0
+	r.cleared = true
 	r.mu.Unlock()
 }
 
